@@ -21,7 +21,8 @@ pub open spec fn g_closed(g: GR) -> bool {
 }
 /// the addresses that hold the nodes of a file's transducer - a function of the bytes (for a built file: the domain
 /// of graph(body), unit layout)
-pub uninterp spec fn fdom(s: Seq<u8>, version: u64) -> vstd::set::Set<nat>;
+
+//@INCLUDE inc/fdom_defs.rs
 pub open spec fn in_graph(g: GR, a: nat) -> bool { a == 0 || g.dom.contains(a) }
 /// before calling FstRef::node(addr) for an address of the graph: the call is allowed and returns the graph's node
 pub proof fn lemma_node_call(g: GR, a: nat)
